@@ -351,6 +351,14 @@ func runCheck(opts checkOpts) (int, map[string]any) {
 		if ct := en.cs.Funcs[k]; len(ct.Effects) > 0 {
 			effRes := en.checkEffects(fn, ct, opts.prop)
 			effAll = append(effAll, effRes...)
+			var ks []string
+			for fk := range en.effByClause {
+				ks = append(ks, fk)
+			}
+			sort.Strings(ks)
+			for _, fk := range ks {
+				assumed = append(assumed, "effect inference below "+k+": the write effect of "+fk+" is taken from "+en.effByClause[fk]+" (a write smuggled into it is reported there, not here)")
+			}
 			if len(ct.Requires)+len(ct.Ensures)+len(ct.LoopInv) == 0 || ct.Trusted {
 				continue
 			}
